@@ -19,6 +19,7 @@
 EXTENDS XCryptCore, Json, IOUtils
 
 S == INSTANCE Settings
+Y == INSTANCE Yescrypt
 
 T == ndJsonDeserialize(IOEnv.XCV_TRACE)
 OutFile == IOEnv.XCV_VERDICT
@@ -173,6 +174,13 @@ A_Released(ev) ==
 C02_Released(ev) ==
   A_Released(ev)
   => (ev.out = T[ev.rprev].out /\ ObservedSuccess(ev) = ObservedSuccess(T[ev.rprev]))
+\* C05 (malformed parameters): a yescrypt-family setting whose parameters decode but which yescrypt_kdf must refuse
+\* (unsupported flavour, t/g/NROM where they are not allowed, N <= 3, N/p <= 3, r*p >= 2^30) never yields a hash.
+\* Settings.tla leaves these "either"; Yescrypt.tla decides them.
+YDecoded(ev, m) == IF m = "scrypt" THEN Y!Decode7(ev.s) ELSE Y!DecodeY(ev.s, IF m = "yescrypt" THEN 3 ELSE 4)
+A_KdfParams(ev, oc) ==
+  oc.m \in {"yescrypt", "gost_yescrypt", "scrypt"} /\ oc.validated /\ LET d == YDecoded(ev, oc.m) IN d.ok /\ ~Y!KdfAccepts(d)
+C05_KdfParams(ev, oc) == A_KdfParams(ev, oc) => ~ObservedSuccess(ev)
 C18_CanHash(ev) == (ObservedSuccess(ev) /\ ev.snull = 0) => S!Checksalt(Enabled, ev.s) # S!SALT_INVALID
 C_Literal(ev) == ev.gs = 1 => (ObservedSuccess(ev) /\ S!StartsWith(ev.out, ev.s))
 \* C14: the handle after crypt_ra
@@ -191,7 +199,7 @@ C_Handle(ev) ==
 C_Balanced(ev) == ev.livemap = 0 /\ ev.badfree = 0 /\ ev.liveheap = ev.hlive
 
 AntNames == {"FailClosed", "FailClosedStaleErrno", "ShortSizes", "Wiped", "Result", "ResultNonzeroErrno", "UninitDependence", "AsIfAlone",
-             "Grow", "Handle", "RoundTrip", "Distinct", "FalseAcceptProbe", "Literal", "Released", "Balanced", "Shape"}
+             "Grow", "Handle", "RoundTrip", "Distinct", "FalseAcceptProbe", "Literal", "Released", "Balanced", "Shape", "KdfParams"}
 \* (the argument is forced with TLCEval at the call site: a lazy argument would be re-evaluated for every n)
 AddAnts(f, a) == [n \in AntNames |-> f[n] + (IF n \in a THEN 1 ELSE 0)]
 V(p, n) == [l |-> l, p |-> p, n |-> n]
@@ -223,6 +231,7 @@ JudgeHash(ev) ==
               \cup (IF C_Distinct(ev) THEN {} ELSE {V("C03", "Distinct")})
               \cup (IF C_FalseAccept(ev) THEN {} ELSE {V("C03", "FalseAccept")})
               \cup (IF C_Handle(ev) THEN {} ELSE {V("C14", "Handle")})
+              \cup (IF C05_KdfParams(ev, oc) THEN {} ELSE {V("C05", "KdfParams")})
               \cup (IF C_Literal(ev) THEN {} ELSE {V("C10", "Literal")})
               \cup (IF C18_CanHash(ev) THEN {} ELSE {V("C18", "CanHash")})
               \cup (IF C02_Released(ev) THEN {} ELSE {V("C02", "Released")})
@@ -246,6 +255,7 @@ JudgeHash(ev) ==
               \cup (IF A_Released(ev) THEN {"Released"} ELSE {})
               \cup (IF AnyFault(ev) THEN {"Balanced"} ELSE {})
               \cup (IF ObservedSuccess(ev) THEN {"Shape"} ELSE {})
+              \cup (IF A_KdfParams(ev, oc) THEN {"KdfParams"} ELSE {})
   IN [viol |-> IF ev.rel = 1 THEN {} ELSE coreV \cup conc, ants |-> IF ev.rel = 1 THEN {} ELSE ants,
       \* (events of the reference library are data, not judged: it has the defects this tree repaired)
       div |-> IF AnyFault(ev) \/ ev.rel = 1 THEN {}
